@@ -181,11 +181,20 @@ Proof.
   { destruct (step_SINV clog clog_idx (GSof ns) TrackFut (TrackFut_submitted clog) st n S Hok) as [I' B'].
     constructor; [exact I' | exact B' | | |].
     - apply (step_P clog clog_idx (GSof ns) TrackFut (TrackFut_submitted clog) (ORD clog)); try assumption.
-      + apply (ORD_exec clog clog_idx). + apply ORD_crash. + apply ORD_newSlot. + apply ORD_propose.
+      + exact (ORD_exec clog clog_idx (GSof ns) TrackFut (TrackFut_submitted clog)).
+      + exact (ORD_crash clog (GSof ns)).
+      + exact (ORD_newSlot clog (GSof ns)).
+      + exact (ORD_propose clog (GSof ns)).
     - apply (step_P clog clog_idx (GSof ns) TrackFut (TrackFut_submitted clog) PERS); try assumption.
-      + apply (PERS_exec clog). + apply PERS_crash. + apply PERS_newSlot. + apply PERS_propose.
+      + exact (PERS_exec clog (GSof ns) TrackFut).
+      + exact (PERS_crash clog (GSof ns)).
+      + exact (PERS_newSlot clog (GSof ns)).
+      + exact (PERS_propose clog (GSof ns)).
     - apply (step_P clog clog_idx (GSof ns) TrackFut (TrackFut_submitted clog) (FINV clog)); try assumption.
-      + apply (FINV_exec clog clog_idx). + apply FINV_crash. + apply FINV_newSlot. + apply FINV_propose. }
+      + exact (FINV_exec clog (GSof ns)).
+      + exact (FINV_crash clog (GSof ns)).
+      + exact (FINV_newSlot clog (GSof ns)).
+      + exact (FINV_propose clog (GSof ns)). }
   assert (Mono : forall e, GSof ns e -> GSof (upd ns i n') e).
   { unfold GSof. intros e He. apply In_Gall in He. destruct He as (m & Hm & Hx). apply In_Gall.
     destruct (upd_In_other ns i n' n m En Hm) as [->|Hm'].
@@ -211,7 +220,7 @@ Qed.
 
 Lemma start_NINV GS : NINV GS start_node.
 Proof.
-  destruct (start_SINV clog clog_idx GS) as [I B].
+  destruct (start_SINV clog clog_idx GS TrackFut (TrackFut_submitted clog)) as [I B].
   constructor; [exact I | exact B | | |].
   - apply (run_ORD clog clog_idx GS TrackFut (TrackFut_submitted clog) []). exact Logic.I.
   - apply (run_PERS clog clog_idx GS TrackFut (TrackFut_submitted clog) []). exact Logic.I.
